@@ -8,25 +8,51 @@ A case is a queue configuration and a *program*: a list of operations
 Programs nest without bound (re-entrant put/get/cancel from callbacks).  Every call is individually guarded, so an
 exception from a nested call is an observable of that call and does not abort the callback.
 
+Besides the program a case fixes the *circumstances* the statement does not mention and which therefore must not matter
+(all optional; the defaults are the plain case):
+    "objs"    what the put objects are: "int" | "deferred" (unfired Deferreds) | "hostile" (falsy, equal to everything) |
+              "falsy" (None, 0, "", b"", (), False, 0.0, frozenset(), then fresh empty lists) | "failure" (Failure
+              instances: a Deferred fired with a Failure runs its errback — that errback call is the delivery)
+              The value v of ["p", v] names the object: the same v is THE SAME object, put again.
+    "debug"   defer.setDebugging(True) while the program runs
+    "ctor"    how the queue is constructed: "kw" DeferredQueue(size=s, backlog=b) | "pos" DeferredQueue(s, b) |
+              "omit" limits that are None are left out (defaults), size positional
+    "hold"    "all": the harness keeps every Deferred returned by get | "needed": only those some cancel refers to;
+              the others are referenced by nothing but the queue (q.get().addCallbacks(...), result dropped)
+    "raises"  "" | "E" | "B": every callback/errback attached to a get-Deferred raises RuntimeError / a BaseException
+              subclass after it has run its program (Deferred turns that into a Failure; the queue calls must not notice)
+
 Observable (one token list): P<v> then D<g>=<v> (delivered to Deferred g) | nothing (queued) | OVF (QueueOverflow);
 G then D<g>=<v> | W<g> (unfired Deferred returned) | UNF (QueueUnderflow); C<i> then X<i> (errbacked with
 CancelledError) | nothing | N (no such Deferred); any other exception as !<ClassName>.
 """
 import itertools
 
+from twisted.internet import defer as _defer
 from twisted.internet.defer import CancelledError, Deferred, DeferredQueue, QueueOverflow, QueueUnderflow
+from twisted.python.failure import Failure
 
 HEADLINE = "TwistedProps.C07.delivered_exactly_once_in_put_order"
 RULE = ("all flat histories of length D over {put, get, cancel i (i < gets so far, plus one stale index)} for every "
         "(size, backlog) in {None,0,1,2}^2 (D=6 quick, 8 thorough and 9 for (size,backlog) in {1,2}^2; a history checks all its prefixes), plus random "
         "re-entrant programs (callbacks/errbacks that put/get/cancel, nesting <= 4) and random long flat histories "
         "(<= 250 calls) with limits in {None,-1,0,1,2,3,5}, objects = ints / unfired Deferreds / falsy equal-to-everything "
-        "objects; distinct = (size class, backlog class, nested?, object kind, set of call outcomes seen)")
+        "objects / None and the other falsy singletons / Failure instances, the SAME object put several times (30% of the "
+        "random programs, always for the falsy singletons); and the circumstances the statement does not mention, which "
+        "must not matter: Deferred debugging on (15%), queue built with keyword / positional / omitted limits (50/25/25), "
+        "get-Deferreds referenced by nobody but the queue (40%), callbacks of the get-Deferreds that raise an Exception "
+        "(12%) or a BaseException subclass (18%) after their program; every flat history of length D-2 under each single "
+        "circumstance and every flat history of length D-1 under a random combination, all 16 small limit pairs; "
+        "distinct = (size class, backlog class, nested?, object kind, object reuse, circumstances, set of call outcomes seen)")
 ASSUMES = [
     "only the queue fires the Deferreds returned by get(): user code cancels them but never calls callback()/errback() on them",
     "user callbacks attached to a get() Deferred return non-Deferred values and are attached right after get() returns "
     "(no pause()/chaining of the get Deferred)",
     "size and backlog are None or Python ints; the queue attributes are not reassigned after construction",
+    "a Failure instance put into the queue counts as delivered when the get-Deferred fires with it, i.e. runs its errback "
+    "(Deferred.callback(Failure) is errback(Failure)); objects are never inspected otherwise (no ==, bool(), len(), hash())",
+    "an exception raised by a user callback of a get-Deferred — Exception or BaseException — belongs to that Deferred "
+    "(it becomes its Failure result) and is never seen by the put()/cancel()/addCallbacks() call that fired it",
 ]
 TRUSTED = ["Deferred.callback/errback/cancel: `called` is set before the callbacks run, callbacks run synchronously, cancel() of a "
            "called Deferred does not reach the canceller (modelled as one atomic step per call; tied by this run's re-entrant programs)"]
@@ -36,7 +62,11 @@ MANIFEST = {
             "uncancelled gets (in get order) with the accepted puts (in put order) — each object once, in order, to the oldest "
             "pending uncancelled get or else a later get; put raises QueueOverflow iff no get is pending and the size limit is "
             "reached; get raises QueueUnderflow iff nothing is queued and the backlog limit is reached; cancel never raises. "
-            "Model tied to defer.py by exhaustive short histories and random re-entrant programs on the real DeferredQueue.",
+            "An object put k times is delivered k times (delivered_count: multiplicities, not just distinct objects). "
+            "Model tied to defer.py by exhaustive short histories and random re-entrant programs on the real DeferredQueue, "
+            "run under every circumstance the model abstracts from (object kind incl. None/falsy/Failure/same object again, "
+            "Deferred debugging, constructor call style, who references the get-Deferreds, raising callbacks): the tie checks "
+            "that none of them is observable.",
     "note": "trusts Lean kernel, the hand-written model of DeferredQueue.put/get/_cancelGet + synchronous Deferred firing "
             "(differentially tied), CPython list semantics",
     "technique": "Lean 4 proof (invariant over a small-step semantics; re-entrant interpreter shown to be a schedule of steps) "
@@ -52,9 +82,12 @@ LIMITS_RANDOM = [None, None, -1, 0, 1, 1, 2, 2, 3, 5]
 # ------------------------------------------------------------------------------------------------
 # programs
 
-def renumber(prog):
-    """give every put a distinct value, in pre-order of the program text"""
+def renumber(prog, pool=None, rng=None):
+    """give every put a distinct value, in pre-order of the program text; with `pool`: values drawn from range(pool)
+    (cyclically, or at random with `rng`) so that the same object is put several times"""
     ctr = itertools.count()
+    if pool is not None:
+        ctr = (rng.randrange(pool) for _ in itertools.count()) if rng is not None else itertools.cycle(range(pool))
 
     def go(p):
         out = []
@@ -121,6 +154,37 @@ def corpus():
         c["prog"] = renumber(c["prog"])
     # the objects themselves are opaque: unfired Deferreds, and falsy things equal to everything
     cases += [{**cases[7], "objs": "deferred"}, {**cases[8], "objs": "hostile"}, {**cases[2], "objs": "hostile"}]
+    # circumstances that must not matter (each one was a blind spot found by the mutation audit, harness/mutants/C07)
+    same = ["p", 0]
+    cases += [
+        # the same object put twice (in a row, and around another one) is delivered twice
+        {"size": None, "backlog": None, "prog": [same, same, g(), g(), g()]},
+        {"size": 2, "backlog": None, "prog": [same, same, same, g(), g(), g()], "objs": "deferred"},
+        {"size": None, "backlog": 1, "prog": [same, ["p", 1], same, g(), g(), g(), g()], "objs": "hostile"},
+        # None / falsy singletons as objects
+        {"size": None, "backlog": None, "prog": [same, g(), g()], "objs": "falsy"},
+        # None queued twice: two different fired Deferreds come back, what the first consumer's callback returned stays its own
+        {"size": None, "backlog": None, "prog": [same, same, g(), g(), g(), same, same], "objs": "falsy"},
+        {"size": 1, "backlog": 1, "prog": [["p", i] for i in range(9)] + [g() for _ in range(10)], "objs": "falsy"},
+        {"size": None, "backlog": None, "prog": [g(), ["p", 0], ["p", 5], ["p", 0], g(), g()], "objs": "falsy"},
+        # Failure instances as objects: delivered through the errback chain
+        {"size": 1, "backlog": None, "prog": [g([["p", 1]]), same, g(), g()], "objs": "failure"},
+        # Deferred debugging on: cancel of a pending get, then the next get is served
+        {"size": None, "backlog": None, "prog": [g(), ["c", 0], g(), same, ["p", 1]], "debug": True},
+        {"size": 1, "backlog": 2, "prog": [g([], [g(), ["p", 1]]), g(), ["c", 0], ["c", 1], ["p", 2]], "debug": True},
+        # callbacks that raise (Exception, and outside the Exception hierarchy): from put, from cancel, on a fired get
+        {"size": None, "backlog": None, "prog": [g(), same, ["p", 1], g(), g(), ["c", 2], g(), ["p", 2]], "raises": "B"},
+        {"size": 1, "backlog": 1, "prog": [g([["p", 1], ["p", 2]], [["p", 3]]), same, g(), ["c", 1], g()], "raises": "E"},
+        # nobody but the queue references the get Deferreds
+        {"size": None, "backlog": None, "prog": [g(), g(), g(), ["c", 1], same, ["p", 1], ["p", 2]], "hold": "needed"},
+        {"size": 0, "backlog": 2, "prog": [g([g([["p", 2]])]), same, ["p", 1]], "hold": "needed", "debug": True},
+        # construction: positional limits, omitted limits
+        {"size": 1, "backlog": 2, "prog": [same, ["p", 1], g(), g(), g(), g()], "ctor": "pos"},
+        {"size": 1, "backlog": None, "prog": [same, ["p", 1], g(), g(), g(), g()], "ctor": "omit"},
+        {"size": None, "backlog": 1, "prog": [same, ["p", 1], g(), g(), g(), g()], "ctor": "omit"},
+        {"size": None, "backlog": None, "prog": [same, ["p", 1], g(), g(), g(), g()], "ctor": "omit"},
+        {"size": 0, "backlog": 0, "prog": [same, g(), ["p", 1]], "ctor": "pos"},
+    ]
     return cases
 
 
@@ -183,11 +247,72 @@ def _random(rng, n):
             prog += [["p", 0]] * rng.randint(1, k + 3)
             if b is not None and b < k:
                 b = rng.choice([None, k, k - 1])
-        yield {"size": s, "backlog": b, "prog": renumber(prog), "objs": rng.choice(["int", "int", "deferred", "hostile"])}
+        kind = rng.choice(OBJ_KINDS)
+        if kind == "falsy":
+            prog = renumber(prog, pool=rng.choice([1, 3, 8, 11]), rng=rng)
+        elif rng.random() < 0.3:
+            prog = renumber(prog, pool=rng.choice([1, 2, 3]), rng=rng)   # the same few objects put again and again
+        else:
+            prog = renumber(prog)
+        yield _circumstances(rng, {"size": s, "backlog": b, "prog": prog, "objs": kind})
+
+
+OBJ_KINDS = ["int", "int", "deferred", "hostile", "falsy", "falsy", "failure"]
+
+
+def _circumstances(rng, c):
+    """draw the circumstances the statement does not mention (about half of the cases keep all the defaults of one axis)"""
+    if rng.random() < 0.15:
+        c["debug"] = True
+    r = rng.random()
+    if r < 0.25:
+        c["ctor"] = "pos"
+    elif r < 0.5:
+        c["ctor"] = "omit"
+    if rng.random() < 0.4:
+        c["hold"] = "needed"
+    r = rng.random()
+    if r < 0.12:
+        c["raises"] = "E"
+    elif r < 0.3:
+        c["raises"] = "B"
+    return c
+
+
+VARIANTS = [
+    {"same": True}, {"same": True, "objs": "deferred"},
+    {"objs": "falsy", "same": True}, {"objs": "falsy", "pool": 8}, {"objs": "failure"},
+    {"debug": True}, {"ctor": "pos"}, {"ctor": "omit"}, {"hold": "needed"}, {"raises": "B"}, {"raises": "E"},
+]
+
+
+def _variant_case(s, b, h, v):
+    v = dict(v)
+    same, pool = v.pop("same", False), v.pop("pool", None)
+    prog = h if same else renumber(h, pool=pool)      # flat_histories put the value 0 everywhere
+    return {"size": s, "backlog": b, "prog": prog, **v}
+
+
+def _exhaustive_circumstances(rng, D):
+    """every flat history of length D-1 under every single circumstance; every flat history of length D under a random
+    combination of them"""
+    hs = list(flat_histories(D - 1))
+    for v in VARIANTS:
+        for s in LIMITS_SMALL:
+            for b in LIMITS_SMALL:
+                for h in hs:
+                    yield _variant_case(s, b, h, v)
+    for h in flat_histories(D):
+        for s in LIMITS_SMALL:
+            for b in LIMITS_SMALL:
+                kind = rng.choice(OBJ_KINDS)
+                c = _variant_case(s, b, h, {"objs": kind, "same": rng.random() < 0.25, "pool": rng.choice([None, 2, 8])})
+                yield _circumstances(rng, c)
 
 
 def generate(rng, tier):
     yield from _exhaustive(6 if tier == "quick" else 8)
+    yield from _exhaustive_circumstances(rng, 5 if tier == "quick" else 6)
     if tier != "quick":
         for h in flat_histories(9):
             h = renumber(h)
@@ -242,24 +367,87 @@ class _Hostile:
         return 0
 
 
+class _Abort(BaseException):
+    """raised by user callbacks: outside the Exception hierarchy, like KeyboardInterrupt / SystemExit / GeneratorExit"""
+
+
+# what a consumer's callback returns (the result the get-Deferred is left with — it must never show up anywhere else)
+_LEFTOVER = "what the consumer made of the object"
+
+_FALSY = [None, 0, "", b"", (), False, float(0), frozenset()]   # distinct objects (0, False, 0.0 are equal to each other)
+
+
+def _make_queue(c):
+    s, b = c["size"], c["backlog"]
+    ctor = c.get("ctor", "kw")
+    if ctor == "pos":
+        return DeferredQueue(s, b)
+    if ctor == "omit":
+        if s is None and b is None:
+            return DeferredQueue()
+        if b is None:
+            return DeferredQueue(s)
+        if s is None:
+            return DeferredQueue(backlog=b)
+        return DeferredQueue(s, backlog=b)
+    return DeferredQueue(size=s, backlog=b)
+
+
+def _cancel_indices(prog, acc):
+    for op in prog:
+        if op[0] == "c":
+            acc.add(op[1])
+        elif op[0] == "g":
+            _cancel_indices(op[1], acc)
+            _cancel_indices(op[2], acc)
+    return acc
+
+
 def run_impl(c):
-    q = DeferredQueue(size=c["size"], backlog=c["backlog"])
+    was = _defer.getDebugging()
+    _defer.setDebugging(bool(c.get("debug")))
+    try:
+        return _run_impl(c)
+    finally:
+        _defer.setDebugging(was)
+
+
+def _run_impl(c):
+    q = _make_queue(c)
     log, ds = [], []
     kind = c.get("objs", "int")
-    objs = {}   # id(object) -> value, objects kept alive by `keep`
-    keep = []
+    raises = c.get("raises", "")
+    needed = _cancel_indices(c["prog"], set()) if c.get("hold", "all") == "needed" else None
+    objs = {}   # id(object) -> value, objects kept alive by `made`
+    made = {}   # value -> object: the same value is the same object
 
     def mk(v):
         if kind == "int":
             return v
-        o = Deferred() if kind == "deferred" else _Hostile() if kind == "hostile" else None
+        if v in made:
+            return made[v]
         if kind == "deferred":
+            o = Deferred()
             # Deferred.cancel() on an already fired get-Deferred whose *result object* happens to be a Deferred cancels
             # that object (Deferred.cancel semantics, not the queue's business): swallow, so nothing is logged at GC
             o.addErrback(lambda f: None)
-        keep.append(o)
+        elif kind == "hostile":
+            o = _Hostile()
+        elif kind == "falsy":
+            o = _FALSY[v] if v < len(_FALSY) else []
+        elif kind == "failure":
+            o = Failure(RuntimeError(f"object {v}"))
+        else:
+            raise ValueError(kind)
+        made[v] = o
         objs[id(o)] = v
         return o
+
+    def boom():
+        if raises == "E":
+            raise RuntimeError("user callback failed")
+        if raises == "B":
+            raise _Abort()
 
     def name(o):
         if kind == "int":
@@ -274,7 +462,7 @@ def run_impl(c):
                     q.put(mk(op[1]))
                 except QueueOverflow:
                     log.append("OVF")
-                except Exception as e:
+                except (Exception, _Abort) as e:
                     log.append("!" + type(e).__name__)
             elif op[0] == "g":
                 log.append("G")
@@ -287,23 +475,37 @@ def run_impl(c):
                     log.append("!" + type(e).__name__)
                     continue
                 g = len(ds)
-                ds.append(d)
+                ds.append(d if needed is None or g in needed else None)
                 fired = []
 
                 def cb(v, g=g, f=op[1], fired=fired):
                     fired.append(1)
                     log.append(f"D{g}={name(v)}")
                     run_prog(f)
+                    boom()
+                    return _LEFTOVER
 
-                def eb(fail, g=g, cp=op[2], fired=fired):
+                def eb(fail, g=g, f=op[1], cp=op[2], fired=fired):
                     fired.append(1)
-                    if fail.check(CancelledError):
+                    if kind == "failure" and id(fail) in objs:
+                        # the object put was a Failure: firing a Deferred with it runs the errback — this is the delivery
+                        log.append(f"D{g}={name(fail)}")
+                        run_prog(f)
+                    elif fail.check(CancelledError):
                         log.append(f"X{g}")
                         run_prog(cp)
                     else:
                         log.append(f"E{g}:{fail.type.__name__}")
+                    boom()
+                    return _LEFTOVER
 
-                d.addCallbacks(cb, eb)
+                try:
+                    d.addCallbacks(cb, eb)
+                    if raises:
+                        d.addErrback(lambda f: None)    # what the raising callback left behind is not logged at GC
+                except (Exception, _Abort) as e:
+                    log.append("!" + type(e).__name__)
+                del d                                    # hold="needed": only the queue references it now
                 if not fired:
                     log.append(f"W{g}")
             else:
@@ -314,7 +516,7 @@ def run_impl(c):
                     continue
                 try:
                     ds[i].cancel()
-                except Exception as e:
+                except (Exception, _Abort) as e:
                     log.append("!" + type(e).__name__)
 
     run_prog(c["prog"])
@@ -414,6 +616,10 @@ def oracle(c, out):
         else:
             # a delivery / errback / exception token that no call accounts for: an object delivered twice, to a
             # cancelled Deferred, at the wrong time …
+            if t.startswith("!"):
+                # raised by the call whose callbacks have just run (put / cancel / addCallbacks on a fired get), after them
+                return {"key": "unexpected-event", "detail": f"{t[1:]} escaped from the call that fired a get-Deferred (an "
+                        f"exception raised by a user callback must stay in that Deferred); {where(i)}"}
             return {"key": "unexpected-event", "detail": f"{t} is not accounted for by any call; {where(i)}"}
     return None
 
@@ -431,7 +637,20 @@ def tag(c, out):
 
     def cls(x):
         return "N" if x is None else "neg" if x < 0 else str(x) if x <= 2 else "big"
-    return f"s{cls(c['size'])}:b{cls(c['backlog'])}:{nest}{c.get('objs', 'int')[0]}:{'.'.join(sorted(kinds))}"
+    vals = _put_values(c["prog"], [])
+    circ = c.get("objs", "int")[:2] + ("R" if len(set(vals)) < len(vals) else "") + ("d" if c.get("debug") else "") + \
+        c.get("ctor", "kw")[0] + c.get("hold", "all")[0] + c.get("raises", "")
+    return f"s{cls(c['size'])}:b{cls(c['backlog'])}:{nest}{circ}:{'.'.join(sorted(kinds))}"
+
+
+def _put_values(prog, acc):
+    for op in prog:
+        if op[0] == "p":
+            acc.append(op[1])
+        elif op[0] == "g":
+            _put_values(op[1], acc)
+            _put_values(op[2], acc)
+    return acc
 
 
 def shrink(c):
@@ -454,6 +673,11 @@ def shrink(c):
         yield {**c, "prog": v}
     if c.get("objs", "int") != "int":
         yield {**c, "objs": "int"}
+    for k in ("debug", "ctor", "hold", "raises"):
+        if c.get(k):
+            yield {kk: vv for kk, vv in c.items() if kk != k}
+    if len(set(_put_values(c["prog"], []))) < len(_put_values(c["prog"], [])):
+        yield {**c, "prog": renumber(c["prog"])}
     for k in ("size", "backlog"):
         if c[k] is not None:
             yield {**c, k: None}
@@ -464,4 +688,5 @@ def shrink(c):
 def search(rng, tier, disagreeing):
     """deeper exhaustive flat histories + a larger random stream of re-entrant programs"""
     yield from _exhaustive(7 if tier == "quick" else 9)
+    yield from _exhaustive_circumstances(rng, 6 if tier == "quick" else 7)
     yield from _random(rng, 20000 if tier == "quick" else 60000)
